@@ -196,6 +196,30 @@ func (e *Exec) buildCex(label string, negated *Term) map[string]any {
 			hashes = append(hashes, u)
 		}
 	}
+	// a balance read through a chain of updates still depends on the initial ledger at the same cell: ask for that
+	// base cell too, so that the native side can fund it
+	rootOf := func(t *Term) *Term {
+		for t.Op == "store" {
+			t = t.Args[0]
+		}
+		return t
+	}
+	seenBase := map[string]bool{}
+	for _, u := range append([]*Term{}, selects...) {
+		if len(u.Args) != 2 {
+			continue
+		}
+		inner := u.Args[0]
+		if inner.Op == "select" && len(inner.Args) == 2 && inner.Args[0].Op == "store" {
+			if r := rootOf(inner.Args[0]); r.Op == "sym" {
+				base := sel(sel(r, inner.Args[1], inner.S), u.Args[1], u.S)
+				if k := base.SMT(); !seenBase[k] {
+					seenBase[k] = true
+					selects = append(selects, base)
+				}
+			}
+		}
+	}
 	// queries
 	var want []*Term
 	add := func(t *Term) { want = append(want, t) }
